@@ -66,6 +66,7 @@ type NetlinkClient struct {
 	seq        uint32           // Sequence number used in outgoing messages.
 	readBuf    []byte
 	respWriter io.Writer
+	verif      verifNetlinkState // Simulation seam, empty without the "verif" build tag.
 }
 
 // NewNetlinkClient creates a new NetlinkClient. It creates a socket and binds
@@ -136,6 +137,9 @@ func (c *NetlinkClient) Send(msg syscall.NetlinkMessage) (uint32, error) {
 
 	msg.Header.Seq = atomic.AddUint32(&c.seq, 1)
 	to := &syscall.SockaddrNetlink{}
+	if sock := c.verifSocket(); sock != nil {
+		return msg.Header.Seq, sock.Sendto(serialize(msg), 0, to)
+	}
 	return msg.Header.Seq, syscall.Sendto(c.fd, serialize(msg), 0, to)
 }
 
@@ -158,6 +162,9 @@ func (c *NetlinkClient) Receive(nonBlocking bool, p NetlinkParser) ([]syscall.Ne
 	// XXX (akroh): A possible enhancement is to use the MSG_PEEK flag to
 	// check the message size and increase the buffer size to handle it all.
 	nr, from, err := syscall.Recvfrom(c.fd, c.readBuf, flags)
+	if sock := c.verifSocket(); sock != nil {
+		nr, from, err = sock.Recvfrom(c.readBuf, flags)
+	}
 	if err != nil {
 		// EAGAIN or EWOULDBLOCK will be returned for non-blocking reads where
 		// the read would normally have blocked.
@@ -191,6 +198,9 @@ func (c *NetlinkClient) Receive(nonBlocking bool, p NetlinkParser) ([]syscall.Ne
 
 // Close closes the netlink client's raw socket.
 func (c *NetlinkClient) Close() error {
+	if sock := c.verifSocket(); sock != nil {
+		return sock.Close()
+	}
 	return syscall.Close(c.fd)
 }
 
